@@ -602,7 +602,7 @@ def to_wire_lenient(di, v):
     return v
 
 
-def first_nonmember(di, e, limits=True):
+def first_nonmember(di, e, limits=True, depth=0):
     """(type kind, reason) at the first position where exported value e is outside the value set"""
     ok = member(di, e) if limits else member_nolimits(di, e)
     if ok:
@@ -613,23 +613,23 @@ def first_nonmember(di, e, limits=True):
         if not di.get('minlen', 0) <= len(e) <= di['maxlen']:
             return t, 'badlen'
         for x in e:
-            r = first_nonmember(di['members'], x, limits)
+            r = first_nonmember(di['members'], x, limits, depth + 1)
             if r:
                 return r
     if t == 'tuple' and k == 'list':
         if len(e) != len(di['members']):
             return t, 'badlen'
         for m, x in zip(di['members'], e):
-            r = first_nonmember(m, x, limits)
+            r = first_nonmember(m, x, limits, depth + 1)
             if r:
                 return r
     if t == 'struct' and k == 'obj':
         if set(e) - set(di['members']):
             return t, 'unknownkey'
         if set(di['members']) - set(e):
-            return t, 'incomplete'
+            return t, 'incomplete' if depth else 'incomplete-toplevel'
         for n, x in e.items():
-            r = first_nonmember(di['members'][n], x, limits)
+            r = first_nonmember(di['members'][n], x, limits, depth + 1)
             if r:
                 return r
     if t in ('array', 'tuple', 'struct'):
